@@ -12,7 +12,7 @@ import minigo
 TYPES = {
     "S": "string", "B": "[]byte", "P": "*box", "PP": "*box", "PS": "*string", "ST": "box", "SP": "box", "PR": "pair",
     "SL": "[]string", "PSL": "*[]string", "AR": "[2]string", "M": "map[string]string", "MK": "map[string]string", "I": "any",
-    "IB": "any", "IF": "getter", "C": "func() string", "CH": "chan string",
+    "IB": "any", "IF": "getter", "C": "func() string", "CH": "chan string", "CHP": "chan *box",
 }
 
 
@@ -242,6 +242,28 @@ def s_wrapp(e, x):
     y = e.out("SP"); e.f.stlit(y, "p", x); return y
 
 
+def h_pickp(P):
+    # the struct variable is only assigned as a whole and returned: go/ssa keeps it in a register and the join of the
+    # two arms is a STRUCT-typed phi node whose field p carries the pointer
+    m = P.func("mkp", params=[("in", "*box")], results=["box"])
+    m.var("r", "box")
+    m.stlit("r", "p", "in")
+    m.ret(["r"])
+    h = P.func("pickp", params=[("in", "*box")], results=["box"])
+    h.var("s", "box")
+    with h.if_oracle() as br:
+        h.call(["s"], "mkp", ["in"])        # both arms are call results (registers), not loads from a literal
+        with br.else_():
+            h.call(["s"], "mkp", ["in"])
+    h.ret(["s"])
+    return "pickp"
+
+
+def s_wrapphi(e, x):
+    g = e.helper("pickp", h_pickp)
+    y = e.out("SP"); e.f.call([y], g, [x]); return y
+
+
 def s_unwrapp(e, x):
     y = e.out("P"); e.f.fload(y, x, "p"); return y
 
@@ -465,6 +487,25 @@ def s_send(e, x):
 
 def s_recv(e, x):
     y = e.out("S"); e.f.recv(y, x); return y
+
+
+def s_selrecv(e, x):
+    q = e.tmp("chan bool"); e.f.mkchan(q, 0, "bool")
+    y = e.out("S"); e.f.selrecv(y, x, q); return y
+
+
+def s_sendp(e, x):
+    y = e.out("CHP"); e.f.mkchan(y, 1, "*box"); e.f.send(y, x); return y
+
+
+def s_recvp(e, x):
+    y = e.out("P"); e.f.recv(y, x); return y
+
+
+def s_selrecvp(e, x):
+    # a select whose FIRST case receives from a channel of non-pointer elements and whose second case receives the pointer
+    q = e.tmp("chan bool"); e.f.mkchan(q, 0, "bool")
+    y = e.out("P"); e.f.selrecv(y, x, q); return y
 
 
 def s_sanitize(e, x):
@@ -789,6 +830,7 @@ STEPS = {
     "mkstruct": ("S", "ST", "field", s_mkstruct),
     "field": ("ST", "S", "field", s_field),
     "wrapp": ("P", "SP", "field", s_wrapp),
+    "wrapphi": ("P", "SP", "field", s_wrapphi),
     "unwrapp": ("SP", "P", "field", s_unwrapp),
     "spcopy": ("SP", "SP", "field", s_spcopy),
     "stcopy": ("ST", "ST", "field", s_stcopy),
@@ -846,6 +888,10 @@ STEPS = {
     "deferwrite": ("S", "P", "defer", s_deferwrite),
     "send": ("S", "CH", "chan", s_send),
     "recv": ("CH", "S", "chan", s_recv),
+    "selrecv": ("CH", "S", "chan", s_selrecv),
+    "sendp": ("P", "CHP", "chan", s_sendp),
+    "recvp": ("CHP", "P", "chan", s_recvp),
+    "selrecvp": ("CHP", "P", "chan", s_selrecvp),
     "san_ret": ("S", "S", "role", s_san_ret),
     "san_arg": ("S", "S", "role", s_san_arg),
     "san_mix": ("S", "S", "role", s_san_mix),
@@ -954,7 +1000,7 @@ def run_in_goroutine(ctx, f, body, uses):
     return y
 
 
-PROBEABLE = {"P", "PP", "PS", "SL", "PSL", "M", "MK", "B", "GP", "CH"}
+PROBEABLE = {"P", "PP", "PS", "SL", "PSL", "M", "MK", "B", "GP", "CH", "CHP"}
 
 
 def build_chain(chain, sink_kind="sink", name="p", source_kind="source", probes=False, src_in_go=False,
